@@ -17,6 +17,7 @@ import (
 
 	"verif/harness/chain"
 	"verif/harness/explore"
+	"verif/harness/ref"
 	"verif/harness/runner"
 	"verif/harness/scen"
 )
@@ -37,6 +38,8 @@ var c18Fees = []feeOpt{
 	{"1uregen", &sdk.Coin{Denom: "uregen", Amount: sdk.NewInt(1)}},
 	{"20000000uregen", &sdk.Coin{Denom: "uregen", Amount: sdk.NewInt(20000000)}},
 	{"5stake", &sdk.Coin{Denom: "stake", Amount: sdk.NewInt(5)}},
+	// 2 x 10^19: a fee of 20 tokens of an 18-decimals denom does not fit into 64 bits
+	{"20000000000000000000uregen", &sdk.Coin{Denom: "uregen", Amount: sdk.NewIntFromUint64(10000000000000000000).MulRaw(2)}},
 }
 
 var c18Allow = []string{"off", "on+empty", "on+creator"}
@@ -239,8 +242,13 @@ func creationOp(kind string) c18op {
 				return false, probs
 			}
 		}
-		pre := c.Snap(ctx)
 		creator := scen.D // funded; allow-listed in allow==2
+		if fee.coin != nil && fee.coin.Amount.IsPositive() {
+			// the creator's own precondition: enough funds for the fee (whatever its size) and a bit more
+			ctx, _ = ctx.CacheContext()
+			c.Fund(ctx, creator, sdk.NewCoins(sdk.NewCoin(fee.coin.Denom, fee.coin.Amount.AddRaw(10))))
+		}
+		pre := c.Snap(ctx)
 		check := func(tag string, offer *sdk.Coin, mustSucceed bool) {
 			a := mk(creator, offer, tag)
 			post, _, res, _ := explore.Apply(c, ctx, a)
@@ -341,13 +349,35 @@ func marketOp() c18op {
 			maxFee := sdk.NewInt64Coin(den, 1_000_000) // well above floor(buyer fee) for every accepted rate in the alphabet
 			buy := scen.Msg(fmt.Sprintf("BuyDirect(D,0.5@1000%s)", strings.SplitN(den, "/", 2)[0]), &markettypes.MsgBuyDirect{Buyer: scen.D.String(), Orders: []*markettypes.MsgBuyDirect_Order{
 				{SellOrderId: r.SellOrderIds[0], Quantity: "0.5", BidPrice: &bid, DisableAutoRetire: true, MaxFeeAmount: &maxFee}}})
-			_, _, bres, _ := explore.Apply(c, branch, buy)
+			_, bw, bres, _ := explore.Apply(c, branch, buy)
 			if !bres.OK {
 				k := "op-fails/BuyDirect"
 				if bres.Panic {
 					k = "op-panics/BuyDirect"
 				}
 				probs = append(probs, [2]string{k, fmt.Sprintf("%s with %s: %s", buy.Label, cfg, bres.Err)})
+				continue
+			}
+			bw()
+			// a buyer who caps the fee at an explicit ZERO coin: the cap covers the buyer fee whenever that fee,
+			// rounded down to whole units, is zero (0.25 x 1000 x buyer rate < 1)
+			rate := new(big.Rat)
+			if r := c18Rates[cfg.rb]; r != "" {
+				if p, err := ref.Parse(r); err == nil {
+					rate = p.R
+				}
+			}
+			if new(big.Rat).Mul(big.NewRat(250, 1), rate).Cmp(big.NewRat(1, 1)) < 0 {
+				zero := sdk.Coin{Denom: den, Amount: sdk.NewInt(0)}
+				buy0 := scen.Msg(fmt.Sprintf("BuyDirect(D,0.25@1000%s,max_fee=0)", strings.SplitN(den, "/", 2)[0]), &markettypes.MsgBuyDirect{Buyer: scen.D.String(), Orders: []*markettypes.MsgBuyDirect_Order{
+					{SellOrderId: r.SellOrderIds[0], Quantity: "0.25", BidPrice: &bid, DisableAutoRetire: true, MaxFeeAmount: &zero}}})
+				if _, _, zres, _ := explore.Apply(c, branch, buy0); !zres.OK {
+					k := "op-fails/BuyDirect-with-zero-max-fee"
+					if zres.Panic {
+						k = "op-panics/BuyDirect-with-zero-max-fee"
+					}
+					probs = append(probs, [2]string{k, fmt.Sprintf("%s with %s: %s", buy0.Label, cfg, zres.Err)})
+				}
 			}
 		}
 		return true, probs
@@ -466,7 +496,7 @@ func init() {
 		o := runner.New("C18", tier, "model_checking")
 		o.Assumptions = []string{
 			"trusted base and composition as for the Engine A checks",
-			"configuration alphabet: class/basket fee in {unset, 0uregen, 1uregen, 20000000uregen, 5stake}; allowlist {off, on+empty, on+creator}; allowed denoms {none, uregen, uregen+ibc voucher, uregen+ibc voucher+mixed-case denom+stake}; buyer and seller fee rate each in " + fmt.Sprintf("%q", c18Rates),
+			"configuration alphabet: class/basket fee in {unset, 0uregen, 1uregen, 20000000uregen, 5stake, 2x10^19 uregen (beyond 64 bits)}; allowlist {off, on+empty, on+creator}; allowed denoms {none, uregen, uregen+ibc voucher, uregen+ibc voucher+mixed-case denom+stake}; buyer and seller fee rate each in " + fmt.Sprintf("%q", c18Rates),
 			"acceptance paths: (msg) governance messages through ValidateBasic + handler from the prepared state; (genesis) Module.ValidateGenesis + InitGenesis of the prepared state's export with the parameter tables replaced",
 			"an operation's own preconditions: creator funded, allow-listed when the allowlist is on, offering at least the fee; seller holds credits and asks in an allowed denom; buyer funded, bid = ask, max fee far above the buyer fee",
 		}
